@@ -317,5 +317,5 @@ func bubble(c *harness.Ctx) {
 }
 
 func TestS3(t *testing.T) {
-	harness.Main(t, map[string]harness.Scenario{"zk": zkrun})
+	harness.Main(t, map[string]harness.Scenario{"zk": zkrun, "zktap": zktap})
 }
